@@ -54,6 +54,7 @@ pub const FAULT_KINDS: &[&str] = &[
     "silence",
     "delay",
     "garbage",
+    "pointer_games",
     "truncate_bytes",
     "wrong_id",
     "qr_clear",
@@ -444,6 +445,32 @@ impl UniverseNet {
                     .map(|i| (simseam::mix64(h ^ i as u64) & 0xff) as u8)
                     .collect();
                 return (resp, Some(bytes), 0, true);
+            }
+            "pointer_games" => {
+                // a reply whose question name plays with compression pointers: back to
+                // a label of the same name, into its middle, forward, in a circle
+                if let Ok(b) = resp.to_octets() {
+                    let mut msg = b[..12].to_vec();
+                    msg[4] = 0;
+                    msg[5] = 1;
+                    msg[6] = 0;
+                    msg[7] = 0;
+                    msg[8] = 0;
+                    msg[9] = 0;
+                    msg[10] = 0;
+                    msg[11] = 0;
+                    let name: Vec<u8> = match h % 6 {
+                        0 => vec![0xC0, 12],
+                        1 => vec![1, b'a', 0xC0, 12],
+                        2 => vec![3, b'w', b'w', b'w', 1, b'a', 0xC0, 16],
+                        3 => vec![1, b'a', 0xC0, 40],
+                        4 => vec![0xC0, 14, 0xC0, 12],
+                        _ => vec![2, b'a', b'b', 0xC0, 13],
+                    };
+                    msg.extend_from_slice(&name);
+                    msg.extend_from_slice(&[0, 1, 0, 1]);
+                    return (resp, Some(msg), 0, true);
+                }
             }
             "truncate_bytes" => {
                 if let Ok(b) = resp.to_octets() {
